@@ -3,7 +3,7 @@ from fractions import Fraction
 from .. import bb, chain as K, gen_chain as GC, gen_history as GH
 
 NAMESPACE = "Rbp.Props.C15"
-REQUIRED = ["counts_volume_fees_spec", "mean_exact", "biggest_first_on_ties", "fee_rule", "reward_halving", "printed_figures_close", "float_round_to_nearest", "printed_is_nearest_decimal"]
+REQUIRED = ["counts_volume_fees_spec", "mean_exact", "biggest_first_on_ties", "fee_rule", "reward_halving", "printed_figures_close", "float_round_to_nearest", "printed_is_nearest_decimal", "exit0_report_is_fold_over_delivered"]
 LEAN_FILES = ["Rbp/Model/Callbacks.lean", "Rbp/Model/Run.lean", "Rbp/Model/F64.lean", "Rbp/Proofs/Stats.lean", "Rbp/Proofs/F64.lean"]
 RULE = ("black-box `simplestats` vs the whole-program Lean model: every integer figure compared exactly; every printed float p with d decimals must satisfy |p - q| <= 0.5*10^-d (+1e-12 relative) for the model's exact rational q "
         "AND equal, character for character, the model's rendering of the same figure (Model/F64.lean: correctly rounded binary64 conversion / division / multiplication, `{:.k}` = round-half-even of the exact binary value, NaN for 0/0); "
